@@ -69,7 +69,9 @@ class DocGen(object):
     def table(self, ncols=None):
         r = self.rng
         ncols = ncols or r.randint(1, 3)
-        cell = lambda: r.choice(["", "x", "a|b", "|", "ü", "1 2", "<c>", "c:d", "\"", "#no comment", "@t"])
+        cell = lambda: r.choice(["", "x", "a|b", "|", "ü", "1 2", "<c>", "c:d", "\"", "#no comment", "@t",
+                                 # a backslash in front of anything but a pipe is an ordinary character (paths, regular expressions)
+                                 "C:\\data\\x", "INV-\\d+\\.pdf", "a\\nb"])
         header = ["h%d%s" % (i, r.choice(["", " x", "|y"])) for i in range(ncols)]
         rows = [[cell() for _ in range(ncols)] for _ in range(r.randint(0, 3))]
         if r.random() < 0.15:
